@@ -213,6 +213,115 @@ func checkReseed(w *World, r *Report, d *detInfo, k *kernels, curFFCField int, r
 			r.Check(okP, rule, "the background update receives the previous frame's FFC state", w.InstrPos(call), e.termOf(pa).String())
 		}
 	}
+	checkUpdateBeforeDifferencing(w, r, d, k, rule)
+}
+
+// forwardReaches: b is executed after a without taking a back edge (same loop iteration, or later straight-line code).
+func forwardReaches(a, b ssa.Instruction) bool {
+	if a.Block() == b.Block() {
+		return instrIndex(a) < instrIndex(b)
+	}
+	seen := map[*ssa.BasicBlock]bool{}
+	var walk func(x *ssa.BasicBlock) bool
+	walk = func(x *ssa.BasicBlock) bool {
+		if x == b.Block() {
+			return true
+		}
+		if seen[x] {
+			return false
+		}
+		seen[x] = true
+		for _, s := range x.Succs {
+			if s.Dominates(x) {
+				continue // back edge
+			}
+			if walk(s) {
+				return true
+			}
+		}
+		return false
+	}
+	for _, s := range a.Block().Succs {
+		if !s.Dominates(a.Block()) && walk(s) {
+			return true
+		}
+	}
+	return false
+}
+
+// instrReaches: execution can continue from instruction a to instruction b of the same function.
+func instrReaches(a, b ssa.Instruction) bool {
+	if a.Block() == b.Block() && instrIndex(a) < instrIndex(b) {
+		return true
+	}
+	for _, s := range a.Block().Succs {
+		if reaches(s, b.Block()) {
+			return true
+		}
+	}
+	return false
+}
+
+// liftTo: the instruction of root through which execution reaches `in` (in itself, or the call in root to the helper,
+// two levels deep, that contains it); nil when there is none or more than one.
+func liftTo(w *World, root *ssa.Function, in ssa.Instruction, depth int) ssa.Instruction {
+	if in.Parent() == root {
+		return in
+	}
+	if depth > 2 {
+		return nil
+	}
+	var found ssa.Instruction
+	n := 0
+	for _, c := range w.callersOf(in.Parent()) {
+		for _, b := range c.Blocks {
+			for _, x := range b.Instrs {
+				if ci, ok := x.(ssa.CallInstruction); ok && ci.Common().StaticCallee() == in.Parent() {
+					if l := liftTo(w, root, x, depth+1); l != nil {
+						found = l
+						n++
+					}
+				}
+			}
+		}
+	}
+	if n == 1 {
+		return found
+	}
+	return nil
+}
+
+// checkUpdateBeforeDifferencing: within one Detect call the background (and with it the threshold) is brought up to date
+// BEFORE the frame is differenced: no background/threshold update is reachable from the selection logic's call.
+func checkUpdateBeforeDifferencing(w *World, r *Report, d *detInfo, k *kernels, rule string) {
+	var ups, sels []ssa.Instruction
+	for _, b := range detectBlocks(w, d, k) {
+		for _, in := range b.Instrs {
+			if call, ok := in.(*ssa.Call); ok {
+				switch call.Call.StaticCallee() {
+				case k.updateBg, k.calcThresh:
+					ups = append(ups, in)
+				case k.pixelsChanged:
+					sels = append(sels, in)
+				}
+			}
+		}
+	}
+	n := 0
+	for _, u := range ups {
+		lu := liftTo(w, d.Detect, u, 0)
+		for _, s := range sels {
+			ls := liftTo(w, d.Detect, s, 0)
+			n++
+			if lu == nil || ls == nil {
+				r.Unknown(rule, "order of "+calleeNameCI(u.(ssa.CallInstruction))+" and the selection logic", w.InstrPos(u), "call sites not attributable to one instruction of Detect")
+				continue
+			}
+			bad := lu == ls && u.Parent() == s.Parent() && instrReaches(s, u) || lu != ls && instrReaches(ls, lu)
+			r.Check(!bad, rule, calleeNameCI(u.(ssa.CallInstruction))+" runs before the frame is differenced (the threshold in force for a frame is the one derived from the background including that frame)", w.InstrPos(u), "selection logic called at "+w.InstrPos(s))
+		}
+	}
+	r.Check(n >= 2, rule, "update / differencing call pairs in Detect", "-", fmt.Sprint(n))
 }
 
 // checkDetectorResetRings: the detector's Reset resets the comparison ring and the diff ring THEMSELVES (the receiver's
@@ -754,6 +863,14 @@ func (d *detInfo) isInteriorMeanAccumulator(e *termEnv, v ssa.Value) (bool, stri
 			if !(row.ok && col.ok && row.lo == linS && row.hi == linR1 && col.lo == linS && col.hi == linC1) {
 				why = fmt.Sprintf("summation range rows [%s,%s] cols [%s,%s] is not exactly the interior", row.lo, row.hi, col.lo, col.hi)
 				return false
+			}
+			// the pixel that is summed is the pixel AFTER this frame's update: no store to the same background element
+			// follows the load within the iteration (back edges ignored)
+			for _, a := range elemAccesses(ld.Parent()) {
+				if a.IsStore && a.Row == rr && a.Col == cc && e.termOf(a.Frame).String() == bg && forwardReaches(ld, a.Instr) {
+					why = "the background pixel is summed before it is updated (store at line " + fmt.Sprint(e.w.Prog.Fset.Position(a.Instr.Pos()).Line) + " follows the load)"
+					return false
+				}
 			}
 			return walk(accSide)
 		}
